@@ -59,10 +59,15 @@ def run(cmd, timeout, cwd=None, env=None, input=None):
 
 
 class Lock:
+    """exclusive while anything under coq/ or build/ is (re)built; shared while compiled files are only read (evaluation of
+    model and specification terms), so that checks started in parallel never read a library another one is rebuilding"""
+    def __init__(self, shared=False):
+        self.shared = shared
+
     def __enter__(self):
         os_makedirs()
-        self.f = open(os.path.join(BUILD, '.lock'), 'w')
-        fcntl.flock(self.f, fcntl.LOCK_EX)
+        self.f = open(os.path.join(BUILD, '.lock'), 'a')
+        fcntl.flock(self.f, fcntl.LOCK_SH if self.shared else fcntl.LOCK_EX)
         return self
 
     def __exit__(self, *a):
@@ -195,7 +200,7 @@ def coq_eval(terms, imports, tag, chunk=400, timeout=600):
         body += 'Eval vm_compute in cases.\n'
         with open(path, 'w') as f:
             f.write(body)
-        p = subprocess.Popen(['coqc'] + COQFLAGS + ['-w', '-notation-overridden', '-o', os.path.join(d, name + '.vo'), path],
+        p = subprocess.Popen(['coqc'] + COQFLAGS + ['-noglob', '-w', '-notation-overridden', '-o', os.path.join(d, name + '.vo'), path],
                              cwd=COQ, stdout=subprocess.PIPE, stderr=subprocess.PIPE, text=True)
         procs.append((ci, len(part), p, path))
         if len(procs) >= 12:
@@ -221,6 +226,17 @@ def _drain(procs, results, timeout):
             continue
         for i, r in enumerate(parsed):
             results[ci + i] = r
+        # evaluated: the generated file and what coqc left beside it are scratch (kept only when something went wrong)
+        base = path[:-2]
+        for ext in ('.v', '.vo', '.vok', '.vos', '.glob'):
+            try:
+                os.remove(base + ext)
+            except OSError:
+                pass
+        try:
+            os.remove(os.path.join(os.path.dirname(base), '.' + os.path.basename(base) + '.aux'))
+        except OSError:
+            pass
 
 
 def parse_list_list(out):
